@@ -150,6 +150,21 @@ static void __attribute__((noinline)) observe(const char* op, long long a, long 
 }
 
 /* ------------------------------------------------------------------ operations (noinline: no object pointer survives in main's frame) */
+/* key types of other widths for the Int -> Ref containers (keyw 4 / 12): the VALUE then sits at an offset that is not a
+ * multiple of the pointer size in a Tree node; plain structs, compared and hashed byte-wise by default */
+struct Key4 { int32_t k; };
+struct Key12 { int32_t k; int32_t pad[2]; };
+static var Key4 = Cello(Key4);
+static var Key12 = Cello(Key12);
+static int keyw = 8;
+static var hkey_type(void) { return keyw == 4 ? Key4 : keyw == 12 ? Key12 : Int; }
+static var key_fill(var b4, var b12, var bi, int k) {
+  if (keyw == 4) { ((struct Key4*)b4)->k = k; return b4; }
+  if (keyw == 12) { struct Key12* q = b12; q->k = k; q->pad[0] = q->pad[1] = 0; return b12; }
+  ((struct Int*)bi)->val = k; return bi;
+}
+#define KEYOBJ(k) key_fill($(Key4, 0), $(Key12, 0), $I(0), (k))
+
 static var type_for(int kind) {
   switch (kind) {
     case K_NODE: return Node; case K_ANODE: return ANode; case K_REF: return Ref; case K_BOX: return Box;
@@ -165,7 +180,7 @@ static uintptr_t __attribute__((noinline)) make(int id, int kind, int mode, int 
   var idobj = $I(id);                 /* function scope: a compound literal dies with its block */
   if (kind == K_NODE || kind == K_ANODE) a1 = idobj;
   if (kind == K_ARRAY || kind == K_LIST) a1 = Ref;
-  if (kind == K_TABLE || kind == K_TREE) { a1 = Int; a2 = Ref; }
+  if (kind == K_TABLE || kind == K_TREE) { a1 = hkey_type(); a2 = Ref; }
   if (kind == K_TABLEK || kind == K_TREEK) { a1 = Ref; a2 = Int; }
   if (kind == K_BOX) a1 = P(pointee);
   if (kind == K_REF) {          /* new(Ref, NULL) would raise: allocate, leave the pointer empty */
@@ -300,7 +315,8 @@ static int __attribute__((noinline)) real_main(int argc, char** argv) {
   hc_install(0);
   while (hc_next(f)) {
     alarm(60);
-    if (hc_is(0, "reset")) { cur_exec++; ev_begin("reset"); ev_int("line", cur_line); ev_end(); continue; }
+    if (hc_is(0, "keyw")) { keyw = (int)hc_int(1); continue; }
+    if (hc_is(0, "reset")) { keyw = 8; cur_exec++; ev_begin("reset"); ev_int("line", cur_line); ev_end(); continue; }
     if (hc_is(0, "at")) { next_slot = (long)hc_int(1); continue; }
     if (hc_is(0, "new")) {
       int id = (int)hc_int(1), kind = kind_of(hc_w[2]);
@@ -336,11 +352,13 @@ static int __attribute__((noinline)) real_main(int argc, char** argv) {
       observe("cpop", c, 0, 0, hc_exc);
     } else if (hc_is(0, "cset")) {
       int c = (int)hc_int(1), k = (int)hc_int(2), d = (int)hc_int(3);
-      HC_TRY(set(P(c), $I(k), $R(P(d))));
+      var key = KEYOBJ(k);
+      HC_TRY(set(P(c), key, $R(P(d))));
       observe("cset", c, k, d, hc_exc);
     } else if (hc_is(0, "crem")) {
       int c = (int)hc_int(1), k = (int)hc_int(2);
-      HC_TRY(rem(P(c), $I(k)));
+      var key = KEYOBJ(k);
+      HC_TRY(rem(P(c), key));
       observe("crem", c, k, 0, hc_exc);
     } else if (hc_is(0, "kset")) {
       int c = (int)hc_int(1), d = (int)hc_int(2);
